@@ -60,6 +60,12 @@ func (fc *fctx) instr(ins ssa.Instruction) {
 		fc.vals[x] = []*Val{mkVal(a, "Int", x.Type())}
 		if !tr.leaks(x) {
 			tr.protected = append(tr.protected, a)
+			if tr.protectedLocalTypes == nil {
+				tr.protectedLocalTypes = map[string]types.Type{}
+			}
+			if _, isArr := et.Underlying().(*types.Array); !isArr {
+				tr.protectedLocalTypes[a] = et
+			}
 			if st, _ := structOf(et); st != nil {
 				tr.protectedTypes[a] = et
 			} else {
@@ -81,6 +87,15 @@ func (fc *fctx) instr(ins ssa.Instruction) {
 				cs = append(cs, not(eq(base, a)))
 			}
 			tr.assume(and(cs...))
+		}
+		if up, ok := x.Addr.(*ssa.UnOp); ok && up.Op == token.MUL || isFieldOfLookup(x.Addr) {
+			// a pointer read out of the document model (a pointer cell, a map value) designates a stand-alone object,
+			// never a field of another struct or an element of a slice
+			if st, _ := structOf(x.Addr.Type().Underlying().(*types.Pointer).Elem()); st != nil {
+				p := fc.val(x.Addr).E()
+				tr.assume(implies(not(eq(p, "0")), and(eq("(ftag "+p+")", "0"), eq("(obase "+p+")", p))))
+				tr.trusted["pointers to structs that are read out of the document model (pointer cells, map values) designate stand-alone objects, not struct fields or slice elements"] = true
+			}
 		}
 		et := x.Addr.Type().Underlying().(*types.Pointer).Elem()
 		tr.storeTag(fc.val(x.Addr).E(), et, fc.val(x.Val), fc.addrTag(x.Addr))
@@ -232,6 +247,22 @@ func (fc *fctx) instr(ins ssa.Instruction) {
 		unsup("instruction %T", ins)
 	default:
 		unsup("instruction %T", ins)
+	}
+}
+
+// isFieldOfLookup: the value is a field of a struct obtained by a map lookup (v := m[k]; v.Schema)
+func isFieldOfLookup(v ssa.Value) bool {
+	for {
+		switch x := v.(type) {
+		case *ssa.Field:
+			v = x.X
+		case *ssa.Extract:
+			v = x.Tuple
+		case *ssa.Lookup:
+			return true
+		default:
+			return false
+		}
 	}
 }
 
